@@ -258,7 +258,8 @@ class MPI(long):
         return ((self.bit_length() + 7) // 8)
 
     def to_mpibytes(self):
-        return MPIs.int_to_bytes(self.bit_length(), 2) + MPIs.int_to_bytes(self, self.byte_length())
+        # the magnitude takes exactly byte_length() octets: none at all for zero (int_to_bytes never returns less than one octet)
+        return MPIs.int_to_bytes(self.bit_length(), 2) + int(self).to_bytes(self.byte_length(), 'big')
 
     def __len__(self):
         return self.byte_length() + 2
